@@ -6,7 +6,7 @@ VARIABLE hist
 gvars == <<vars, hist>>
 gview == vars
 GInit == Init /\ hist = <<>>
-EvOut(e) == [t |-> e.t, c |-> e.c, v |-> e.v, nuid |-> e.nuid]
+EvOut(e) == [t |-> e.t, c |-> e.c, v |-> e.v, nuid |-> e.nuid, call |-> e.call]
 GNext == Next /\ hist' = Append(hist, [act |-> lastAct', evs |-> [i \in 1..Len(evs') |-> EvOut(evs'[i])], cache |-> cache'])
 GSpec == GInit /\ [][GNext]_gvars
 Dump == /\ (nrecv = MaxRecv => PrintT(<<"TR", ToJson(hist)>>))
